@@ -454,17 +454,28 @@ def build_leaf(node, ctx):
   if t in ('dtlz', 'zdt', 'wfg'):
     from vizier._src.benchmarks.experimenters.synthetic import (
         multiobjective_optproblems as mo)
+    # reference: the third-party objective function called by the harness;
+    # "impl returns a list of values, one per objective, ordered by the metric
+    # information in the problem statement"
+    from optproblems import dtlz, wfg, zdt
     if t == 'dtlz':
+      info['impl_multi'] = getattr(dtlz, node['name'])(
+          node['nobj'], node['dim']).objective_function
       return mo.DTLZExperimenterFactory(
           name=node['name'], dim=node['dim'],
           num_objectives=node['nobj'])(), info
     if t == 'wfg':
+      info['impl_multi'] = getattr(wfg, node['name'])(
+          node['nobj'], node['dim'], node['nobj'] - 1).objective_function
       return mo.WFGExperimenterFactory(
           name=node['name'], dim=node['dim'],
           num_objectives=node['nobj'])(), info
+    info['impl_multi'] = getattr(zdt, node['name'])(
+        node['dim']).objective_function
     return mo.ZDTExperimenterFactory(name=node['name'], dim=node['dim'])(), info
   if t == 'dh':
     from vizier._src.benchmarks.experimenters.synthetic import deb
+    info['f0_is_x0'] = True  # class docstring: f0(x) = x0
     return getattr(deb.DHExperimenter, node['name'])(node['dim']), info
   raise ValueError(t)
 
@@ -1331,6 +1342,29 @@ def check_leaf(b, recs, out, ctx):
       out.violate('base/batch_or_state_dependent/' + b.cls, _detail(
           params=r['in'], in_stack=r['out'], fresh_single=s))
       return
+    m = r['out']['metrics']
+    multi = b.info.get('impl_multi')
+    if multi is not None and m is not None and all(n in r['in'] for n in order):
+      x = np.array([float(r['in'][n]) for n in order], dtype=np.float64)
+      try:
+        vals = [float(v) for v in multi(x)]
+      except Exception:  # pylint: disable=broad-except
+        vals = None
+      if vals is not None:
+        ctx.cls('base_direct_impl_checked')
+        want = {'f%d' % i: v for i, v in enumerate(vals)}
+        if set(want) != set(m) or not all(
+            m[k] == v or abs(m[k] - v) <= 1e-9 * max(1.0, abs(v))
+            or (m[k] != m[k] and v != v) for k, v in want.items()):
+          out.violate('base/multiobjective_numpy_experimenter_value', _detail(
+              params=r['in'], got=m, direct_call=want))
+          return
+    if b.info.get('f0_is_x0') and m is not None and order and order[0] in r[
+        'in']:
+      ctx.cls('base_direct_impl_checked')
+      if 'f0' not in m or not same_num(m['f0'], float(r['in'][order[0]])):
+        out.violate('base/dh_f0_is_not_x0', _detail(params=r['in'], got=m))
+        return
     impl = b.info.get('impl')
     if impl is not None and all(n in r['in'] for n in order):
       x = np.array([float(r['in'][n]) for n in order], dtype=np.float64)
@@ -1358,7 +1392,7 @@ LAYER_CHECK = {
 }
 
 
-def check_generic(b, recs, out, where):
+def check_generic(b, recs, out, where, changed_below=()):
   """Clauses (1) and (2) for one experimenter as seen by its caller."""
   names = [m['name'] for m in b.ps_desc['metrics']]
   for r in recs:
@@ -1371,19 +1405,38 @@ def check_generic(b, recs, out, where):
         if missing:
           out.violate('generic/missing_metric/' + b.cls, _detail(
               missing=missing, rec=r, at=where))
-    if not same_params(r['in'], o['params']):
+    if not same_params(r['in'], o['params']) and r['id'] not in changed_below:
+      # blamed on the innermost experimenter that returned changed parameters
       out.violate('generic/parameters_changed/' + b.cls, _detail(
           suggested=r['in'], after=o['params'], at=where))
 
 
+def _changed_ids(b):
+  """Trial ids some experimenter below b handed back with other parameters."""
+  ids = set()
+  for c in b.children:
+    for r in c.probe.records:
+      if not same_params(r['in'], r['out']['params']):
+        ids.add(r['id'])
+    ids |= _changed_ids(c)
+  return ids
+
+
 def check_tree(b, recs, out, ctx, where='top'):
-  check_generic(b, recs, out, where)
+  check_generic(b, recs, out, where, _changed_ids(b))
   t = b.node['t']
-  if t in LEAVES:
-    check_leaf(b, recs, out, ctx)
-    return
-  LAYER_CHECK[t](b, recs, out, ctx)
-  for i, c in enumerate(b.children):
+  try:
+    if t in LEAVES:
+      check_leaf(b, recs, out, ctx)
+      return
+    LAYER_CHECK[t](b, recs, out, ctx)
+  except Exception:  # pylint: disable=broad-except
+    # A layer that was handed garbage by a (already reported) faulty layer
+    # above it cannot be judged; without an earlier violation it is our bug.
+    if not out.violations:
+      raise
+    ctx.cls('layer_unjudgeable_after_violation')
+  for c in b.children:
     check_tree(c, c.probe.records, out, ctx, where + '/' + t)
 
 
